@@ -226,8 +226,12 @@ class Watcher:
         # Reset the watcher state.
         # The subscriber events are cleared together with the sets they refer to,
         # so a subscriber never wakes up for changes that are no longer recorded.
-        self.deleted.clear()
-        self.updated.clear()
+        # A path whose hash could not be computed is not settled: the workflow still holds
+        # its old state and inotify will not report it again.
+        # It stays recorded, so every following rebuild tries again, as every restart would.
+        unsettled = set(old_hashes) - set(new_hashes)
+        self.deleted &= unsettled
+        self.updated &= unsettled
         for event in self.files_changed_events:
             event.clear()
         self.end_watching.clear()
